@@ -588,6 +588,19 @@ fn comp_body(c: &CompCase, rec: &mut Rec) -> CaseResult {
     if rec.wants_note() {
         rec.note(format!("{} -> {:?}", render(), p));
     }
+    // names compare without regard to letter case (RFC 4343): same verdict for another spelling
+    // of the SOA owner or of the query name
+    if let (Some(d), Some(soa)) = (p, parts.soa_name.as_ref()) {
+        let upper = |n: &Name| Name::from_ascii(n.to_ascii().to_ascii_uppercase()).unwrap_or_else(|_| n.clone());
+        let d_soa = verify_nsec(&query, Some(&upper(soa)), parts.rcode, &parts.answers, &sel);
+        let d_q = verify_nsec(&Query::new(upper(&query.name), query.query_type), Some(soa), parts.rcode, &parts.answers, &sel);
+        if d_soa != d || d_q != d {
+            return triage(Fail::new(
+                "nsec-verdict-depends-on-letter-case",
+                format!("{}: verdict {d:?}; with the SOA owner in upper case {d_soa:?}; with the query name in upper case {d_q:?}", render()),
+            ));
+        }
+    }
     let secure = p.is_some_and(|p| p.is_secure());
     match (agree, secure) {
         (true, true) => Ok(()),
